@@ -2,6 +2,7 @@ package icmp
 
 import (
 	"github.com/postalsys/muti-metroo/internal/crypto"
+	"github.com/postalsys/muti-metroo/internal/identity"
 	"github.com/postalsys/muti-metroo/internal/protocol"
 )
 
@@ -24,3 +25,34 @@ func harnessC03ICMPResponder() {
 	verif_assert(err == nil, "C03/icmp-ack-key-refused")
 	verif_assert(crypto.DeriveSessionKey(s, open.RequestID, ipub, rpub, true).Key() == rk.Key(), "C03/icmp-exit-key-differs-from-ingress-key")
 }
+
+// an all-zero or low-order remote key is refused: no session key on the session
+func harnessC03ICMPDegenerate() {
+	h := &Handler{writer: c03NopWriter{}}
+	sess := &Session{}
+	var k [crypto.KeySize]byte
+	k[0], k[31] = verif_nondet_u8(), verif_nondet_u8()
+	open := &protocol.ICMPOpen{RequestID: verif_nondet_u64(), EphemeralPubKey: k}
+	_, err := h.performKeyExchange(sess, open, k, c03Closer{})
+	verif_reach("C03/icmp-degenerate")
+	if err != nil {
+		verif_reach("C03/icmp-degenerate-refused")
+		verif_assert(sess.GetSessionKey() == nil, "C03/icmp-key-installed-after-refused-key-agreement")
+	} else {
+		verif_assert(sess.GetSessionKey() != nil, "C03/icmp-no-session-key-installed")
+	}
+	if k == ([crypto.KeySize]byte{}) {
+		verif_assert(err != nil, "C03/icmp-accepted-all-zero-remote-key")
+	}
+}
+
+type c03NopWriter struct{}
+
+func (c03NopWriter) WriteICMPOpenAck(identity.AgentID, uint64, *protocol.ICMPOpenAck) error {
+	return nil
+}
+func (c03NopWriter) WriteICMPOpenErr(identity.AgentID, uint64, *protocol.ICMPOpenErr) error {
+	return nil
+}
+func (c03NopWriter) WriteICMPEcho(identity.AgentID, uint64, *protocol.ICMPEcho) error { return nil }
+func (c03NopWriter) WriteICMPClose(identity.AgentID, uint64, uint8) error             { return nil }
